@@ -172,7 +172,8 @@ def scram_rejoin_cases(rng, thorough):
 
 def cra_cases(rng, thorough):
     out = []
-    for secret in ["secret123", "pässwörd-ü𝄞", "x", "s" * 100]:
+    # (a secret is used octet for octet: blanks at its edges belong to it)
+    for secret in ["secret123", "pässwörd-ü𝄞", "x", "s" * 100, " leading-blank", "trailing-newline\n", "\u00a0nbsp-edges\u00a0", "   ", "tab\t"]:
         for salted in (False, True):
             for keylen in ([32] if not salted else [1, 16, 31, 32, 33, 48, 64]):
                 for it in ([1000] if not salted else [1, 100, 1000]):
@@ -211,7 +212,9 @@ def totp_cases(rng, thorough):
     import time as _time
     real_time = _time.time
     secrets = ["GEZDGNBVGY3TQOJQGEZDGNBVGY3TQOJQ", auth.generate_totp_secret(), auth.generate_totp_secret(20), "MFRGGZDFMZTWQ2LK"]
-    times = [59, 1111111109, 1111111111, 1234567890, 2000000000, 20000000000, 1758585600, 1758585629, 1758585630, 30, 60]
+    # (the clock has a fractional part: the time step is the *floor* of the seconds, RFC 6238 4.2)
+    times = [59, 1111111109, 1111111111, 1234567890, 2000000000, 20000000000, 1758585600, 1758585629, 1758585630, 30, 60,
+             59.5, 59.999, 1111111109.75, 89.51, 1758585629.5, 30.4]
     try:
         for secret in secrets:
             for t in times:
@@ -254,7 +257,15 @@ def csign_cases(rng, thorough):
                         kw["authextra"] = {"channel_binding": "tls-unique"}
                     a = AuthCryptoSign(**kw)
                     res = {}
-                    f = a.on_challenge(FakeSession(channel_id), types.Challenge("cryptosign", {"challenge": binascii.b2a_hex(challenge).decode()}))
+                    # (what the router's CHALLENGE says about channel binding - nothing, the same, null - does not change what
+                    # the client signs: its own configuration does)
+                    cextra = {"challenge": binascii.b2a_hex(challenge).decode()}
+                    echo = rng.choice(["absent", "same", "null"])
+                    if echo == "same" and binding:
+                        cextra["channel_binding"] = "tls-unique"
+                    elif echo == "null":
+                        cextra["channel_binding"] = None
+                    f = a.on_challenge(FakeSession(channel_id), types.Challenge("cryptosign", cextra))
                     txaio.add_callbacks(txaio.as_future(lambda: f), lambda r: res.setdefault("sig", r), lambda e: res.setdefault("err", e))
                     fw.settle()
                     sig_hex = res["sig"]
